@@ -18,6 +18,7 @@ import tlc as tlcmod
 
 VERIF = os.path.dirname(os.path.dirname(os.path.abspath(__file__)))
 REPO = os.environ.get("VERIF_REPO", "/repo")
+OUT = os.environ.get("VERIF_OUT") or VERIF      # where evidence/ and replay/ are written (mutation runs redirect it)
 SPEC = os.path.join(VERIF, "spec")
 COMMON = os.path.join(SPEC, "common")
 GOENV = {"GOFLAGS": "-mod=mod", "GOPROXY": "off", "GOSUMDB": "off", "GOTOOLCHAIN": "local"}
@@ -66,16 +67,29 @@ class Check:
     def fatal(self, msg):
         raise Fatal(msg)
 
+    def modfile(self):
+        """go build arguments selecting the checkout to build against: none for /repo (harness/go.mod replaces the module
+        with /repo); for $VERIF_REPO (a scratch clone used by mutation runs) a private go.mod whose replace points there."""
+        hdir = os.path.join(VERIF, "harness")
+        if REPO == "/repo":
+            shutil.copy(os.path.join(REPO, "go.sum"), os.path.join(hdir, "go.sum"))
+            return []
+        mf = self.path("go.mod")
+        with open(mf, "w") as f:
+            f.write(open(os.path.join(hdir, "go.mod")).read().replace("=> /repo", "=> " + REPO))
+        shutil.copy(os.path.join(REPO, "go.sum"), self.path("go.sum"))
+        return ["-modfile", mf]
+
     def build_harness(self):
         """Build vdrive against /repo's current working tree, with the verif hooks if they still compile."""
         hdir = os.path.join(VERIF, "harness")
-        shutil.copy(os.path.join(REPO, "go.sum"), os.path.join(hdir, "go.sum"))
         env = dict(os.environ)
         env.update(GOENV)
         out = self.path("vdrive")
         last = ""
+        mf = self.modfile()
         for tags, label in ((["-tags", "verif"], "on"), ([], "unavailable")):
-            p = subprocess.run(["go", "build"] + tags + ["-o", out, "./cmd/vdrive"], cwd=hdir, env=env,
+            p = subprocess.run(["go", "build"] + mf + tags + ["-o", out, "./cmd/vdrive"], cwd=hdir, env=env,
                                stdout=subprocess.PIPE, stderr=subprocess.STDOUT, text=True)
             last = p.stdout
             if p.returncode == 0:
@@ -259,7 +273,7 @@ class Check:
                 self.known_alias = getattr(self, "known_alias", {})
                 self.known_alias[sig] = ks
                 return
-        rdir = os.path.join(VERIF, "replay", self.pid)
+        rdir = os.path.join(OUT, "replay", self.pid)
         os.makedirs(rdir, exist_ok=True)
         name = hashlib.sha1(sig.encode()).hexdigest()[:12] + ".json"
         rp = os.path.join(rdir, name)
@@ -286,8 +300,8 @@ class Check:
             "known_findings_hit": [{"sig": s, **{k: (sorted(x) if isinstance(x, set) else x) for k, x in v.items()}} for s, v in self.known_hits.items()],
             "hooks": self.hooks, "notes": self.notes,
         }
-        os.makedirs(os.path.join(VERIF, "evidence"), exist_ok=True)
-        with open(os.path.join(VERIF, "evidence", self.pid + ".json"), "w") as f:
+        os.makedirs(os.path.join(OUT, "evidence"), exist_ok=True)
+        with open(os.path.join(OUT, "evidence", self.pid + ".json"), "w") as f:
             json.dump(ev, f, indent=1, default=str)
         for s, v in self.known_hits.items():
             print("KNOWN-FINDING: property=%s %s (sig=%s, %d occurrence(s))" % (self.pid, v["what"], s, v["count"]))
